@@ -164,7 +164,7 @@ pub fn run(ctx: &mut Ctx) {
         })
     });
 
-    let cases = ctx.tier.pick(200_000u64, 2_000_000u64);
+    let cases = ctx.tier.pick(400_000u64, 3_000_000u64);
     ctx.pbt("c10-random", cases, 2600, |t, st| {
         let text = gen_text_for(t);
         let text = text.trim_start_matches('\u{feff}').to_string();
